@@ -8,8 +8,10 @@ ASAN_ENV = {'ASAN_OPTIONS': 'detect_leaks=0:abort_on_error=0', 'UBSAN_OPTIONS': 
 
 
 def build_all(variant='plain'):
-    raw = vlib.build_harness('c11_io_raw', ['c11_io.c'], variant=variant, units=('mir',), defs=['-DMIR_NO_BIN_COMPRESSION'])
-    cmpr = vlib.build_harness('c11_io', ['c11_io.c'], variant=variant, units=('mir',))
+    # the hash of the compression layer reads unaligned words on purpose (mir-hash.h, x86): not ours to judge (C12)
+    extra = ['-fno-sanitize=alignment'] if variant == 'asan' else []
+    raw = vlib.build_harness('c11_io_raw', ['c11_io.c'], variant=variant, units=('mir',), defs=['-DMIR_NO_BIN_COMPRESSION'] + extra)
+    cmpr = vlib.build_harness('c11_io', ['c11_io.c'], variant=variant, units=('mir',), defs=extra)
     model = vlib.ocaml_build('c11', 'Extract_C11', ['c11x'], 'driver_c11.ml')
     # private copies: build/repo-* is pruned by concurrent checks of other properties
     import shutil, glob, time
